@@ -1,0 +1,33 @@
+//go:build verif
+
+// Package verifhook provides instrumentation points for the external
+// verification harness. It is only active when built with `-tags verif`;
+// without the tag every function is an empty inlinable stub.
+package verifhook
+
+import "sync/atomic"
+
+// Enabled reports whether hooks are compiled in.
+const Enabled = true
+
+// Handler receives (point, owner, a, b, c). It may block (scheduler gate).
+// owner identifies the object (window/stream instance) the event belongs to.
+type Handler func(point string, owner any, a, b, c int64)
+
+var handler atomic.Value // of Handler
+
+// Set installs (or with nil removes) the process-wide handler.
+func Set(h Handler) {
+	if h == nil {
+		handler.Store(Handler(func(string, any, int64, int64, int64) {}))
+		return
+	}
+	handler.Store(h)
+}
+
+// At reports that execution reached the named point.
+func At(point string, owner any, a, b, c int64) {
+	if h, ok := handler.Load().(Handler); ok && h != nil {
+		h(point, owner, a, b, c)
+	}
+}
